@@ -1,57 +1,774 @@
 package asam
 
-import "strings"
+import (
+	"fmt"
+	"net/netip"
+	"sort"
+	"strconv"
+	"strings"
+)
 
-// GenStore holds the schema-driven (VPN) objects. Stage 1: nothing is
-// modelled here; VPN lines stay opaque and commands that touch them are
-// reported as unsupported (case not covered).
-type GenStore struct{}
+// This file is the schema of the VPN part of the ASA model: a hand-written
+// table (independent of the tool's cmd-info) that says, for every command
+// kind, where name and sequence number stand, whether the command opens a
+// sub-mode, which sub-commands the mode knows (single- or multi-valued),
+// which other kind a value names, and how the object is removed. The
+// generic store (GenStore), the loader and the printer are driven by it;
+// the executor is in vpn_exec.go, equivalence in vpn_canon.go.
 
-func newGenStore() *GenStore { return &GenStore{} }
+// Kind ids. "acl" is only a reference target; ACLs live in State.ACLs.
+const (
+	kACL  = "acl"
+	kCMap = "cmap"
+	kDyn  = "dyn"
+	kTSet = "tset"
+	kProp = "prop"
+	kPool = "pool"
+	kGP   = "gp"
+	kTG   = "tg"
+	kCert = "cert"
+	kUser = "user"
+	kAAA  = "aaa"
+	kLDAP = "ldap"
+)
 
-func (g *GenStore) clone() *GenStore { return &GenStore{} }
-
-func (g *GenStore) print(b *strings.Builder, sp Spelling) {}
-
-var vpnPrefixes = []string{
-	"crypto ", "tunnel-group", "group-policy ", "username ", "ip local pool ",
-	"webvpn", "aaa-server ", "ldap attribute-map ", "no sysopt connection permit-vpn",
+// attrSpec describes one sub-command (attribute line) of a mode.
+type attrSpec struct {
+	key    string // leading words that identify the attribute
+	multi  bool   // several lines with this key coexist; otherwise a new value replaces the old one
+	ref    string // kind of the object(s) named by the value
+	refAll bool   // every value word is a reference (lists), otherwise only the first
+	ignore bool   // device-only line that is never compared (secrets, keepalive, group-policy webvpn block)
+	nested bool   // the word opens the object's own nested sub-mode (webvpn inside attributes)
 }
 
-func isVPNLine(head string) bool {
-	for _, p := range vpnPrefixes {
-		if strings.HasPrefix(head, p) {
-			return true
+type modeSpec struct {
+	id    string // words after the name that open the mode; "" = the head line itself; "#" = one mode per sequence number
+	attrs []attrSpec
+}
+
+const (
+	shapeLines   = iota // bag of "PREFIX NAME SEQ <attribute>" lines, no sub-mode
+	shapeOneLine        // "PREFIX NAME REST"
+	shapeModes          // creating line(s) plus sub-modes
+)
+
+type kindSpec struct {
+	id       string
+	words    []string // command prefix
+	label    string   // prefix as text
+	seq      bool     // a sequence number follows the name
+	shape    int
+	create   []string // first word after the name of the line that creates the object
+	modes    []*modeSpec
+	removal  string            // "no": negated line/head; "clear": clear configure PREFIX NAME; "never"
+	defaults map[string]string // objects that exist implicitly: name -> creating line
+}
+
+func single(keys ...string) []attrSpec {
+	var l []attrSpec
+	for _, k := range keys {
+		l = append(l, attrSpec{key: k})
+	}
+	return l
+}
+
+func multi(keys ...string) []attrSpec {
+	var l []attrSpec
+	for _, k := range keys {
+		l = append(l, attrSpec{key: k, multi: true})
+	}
+	return l
+}
+
+func cat(ls ...[]attrSpec) []attrSpec {
+	var l []attrSpec
+	for _, x := range ls {
+		l = append(l, x...)
+	}
+	return l
+}
+
+func cryptoEntryAttrs(static bool) []attrSpec {
+	l := []attrSpec{
+		{key: "match address", ref: kACL},
+		{key: "set ikev1 transform-set", ref: kTSet, refAll: true},
+		{key: "set ikev2 ipsec-proposal", ref: kProp, refAll: true},
+	}
+	l = append(l, single("set peer", "set pfs", "set nat-t-disable", "set reverse-route",
+		"set security-association lifetime seconds", "set security-association lifetime kilobytes")...)
+	if static {
+		l = append(l, attrSpec{key: "ipsec-isakmp dynamic", ref: kDyn})
+		l = append(l, single("set trustpoint")...)
+	}
+	return l
+}
+
+var schema = []*kindSpec{
+	{id: kCMap, label: "crypto map", seq: true, shape: shapeLines, removal: "no",
+		modes: []*modeSpec{{id: "#", attrs: cryptoEntryAttrs(true)}}},
+	{id: kDyn, label: "crypto dynamic-map", seq: true, shape: shapeLines, removal: "no",
+		modes: []*modeSpec{{id: "#", attrs: cryptoEntryAttrs(false)}}},
+	{id: kTSet, label: "crypto ipsec ikev1 transform-set", shape: shapeOneLine, removal: "no"},
+	{id: kProp, label: "crypto ipsec ikev2 ipsec-proposal", shape: shapeModes, removal: "no",
+		modes: []*modeSpec{{id: "", attrs: single("protocol esp encryption", "protocol esp integrity")}}},
+	{id: kPool, label: "ip local pool", shape: shapeOneLine, removal: "no"},
+	{id: kGP, label: "group-policy", shape: shapeModes, create: []string{"internal"}, removal: "clear",
+		defaults: map[string]string{"DfltGrpPolicy": "internal"},
+		modes: []*modeSpec{{id: "attributes", attrs: cat(
+			[]attrSpec{
+				{key: "vpn-filter value", ref: kACL},
+				{key: "split-tunnel-network-list value", ref: kACL},
+				{key: "address-pools value", ref: kPool, refAll: true},
+				{key: "webvpn", nested: true, ignore: true},
+			},
+			multi("banner", "anyconnect-custom"),
+			single("dns-server", "wins-server", "default-domain", "split-dns", "split-tunnel-policy",
+				"vpn-idle-timeout", "vpn-session-timeout", "vpn-simultaneous-logins", "vpn-tunnel-protocol",
+				"vpn-access-hours", "pfs", "password-storage", "ip-comp", "re-xauth", "group-lock",
+				"ipsec-udp", "ipsec-udp-port", "dhcp-network-scope", "vlan", "nac-settings",
+				"vpn-filter", "split-tunnel-network-list", "address-pools", "ipv6-vpn-filter",
+				"ipv6-address-pools", "backup-servers", "msie-proxy", "client-firewall", "nem",
+				"smartcard-removal-disconnect", "intercept-dhcp", "secure-unit-authentication",
+				"user-authentication", "user-authentication-idle-timeout", "ip-phone-bypass",
+				"leap-bypass", "client-access-rule"),
+		)}}},
+	{id: kTG, label: "tunnel-group", shape: shapeModes, create: []string{"type"}, removal: "clear",
+		defaults: map[string]string{"DefaultL2LGroup": "type ipsec-l2l", "DefaultRAGroup": "type remote-access",
+			"DefaultWEBVPNGroup": "type webvpn"},
+		modes: []*modeSpec{
+			{id: "general-attributes", attrs: cat(
+				[]attrSpec{
+					{key: "default-group-policy", ref: kGP},
+					{key: "authentication-server-group", ref: kAAA},
+				},
+				multi("dhcp-server", "annotation"),
+				single("address-pool", "ipv6-address-pool", "accounting-server-group", "authorization-server-group",
+					"secondary-authentication-server-group", "strip-realm", "strip-group", "password-management",
+					"override-account-disable", "authorization-required", "username-from-certificate",
+					"secondary-username-from-certificate", "nat-assigned-to-public-ip", "authentication-attr-from-server",
+					"authenticated-session-username"),
+			)},
+			{id: "ipsec-attributes", attrs: cat(
+				[]attrSpec{
+					{key: "ikev1 pre-shared-key", ignore: true},
+					{key: "ikev2 local-authentication pre-shared-key", ignore: true},
+					{key: "ikev2 remote-authentication pre-shared-key", ignore: true},
+					{key: "isakmp keepalive", ignore: true, multi: true},
+				},
+				single("peer-id-validate", "trust-point", "chain", "pre-shared-key", "ikev1 trust-point",
+					"ikev1 user-authentication", "isakmp ikev1-user-authentication",
+					"ikev2 local-authentication certificate", "ikev2 remote-authentication certificate",
+					"ikev2 remote-authentication eap", "ikev2 rsa-sig-hash", "client-update", "radius-sdi-xauth",
+					"ikev1 radius-sdi-xauth", "isakmp", "ikev1", "ikev2"),
+			)},
+			{id: "webvpn-attributes", attrs: cat(
+				multi("group-alias", "group-url"),
+				single("authentication", "customization", "dns-group", "nbns-server", "radius-reject-message",
+					"proxy-auth", "pre-fill-username", "secondary-pre-fill-username", "without-csd",
+					"override-svc-download", "hic-fail-group-policy"),
+			)},
+		}},
+	{id: kCert, label: "crypto ca certificate map", seq: true, shape: shapeModes, removal: "clear",
+		modes: []*modeSpec{{id: "#", attrs: multi("subject-name", "extended-key-usage", "issuer-name", "alt-subject-name")}}},
+	{id: kUser, label: "username", shape: shapeModes, create: []string{"nopassword"}, removal: "clear",
+		modes: []*modeSpec{{id: "attributes", attrs: cat(
+			[]attrSpec{
+				{key: "vpn-filter value", ref: kACL},
+				{key: "vpn-group-policy", ref: kGP},
+				{key: "webvpn", nested: true},
+			},
+			single("vpn-framed-ip-address", "vpn-framed-ipv6-address", "service-type", "vpn-simultaneous-logins",
+				"password-storage", "vpn-idle-timeout", "vpn-session-timeout", "vpn-tunnel-protocol",
+				"vpn-access-hours", "group-lock", "memberof", "vpn-filter"),
+		)}}},
+	{id: kAAA, label: "aaa-server", shape: shapeModes, create: []string{"protocol"}, removal: "never",
+		modes: []*modeSpec{{id: "host", attrs: cat(
+			[]attrSpec{{key: "ldap-attribute-map", ref: kLDAP}},
+			single("ldap-base-dn", "ldap-scope", "ldap-naming-attribute", "ldap-login-password", "ldap-login-dn",
+				"ldap-over-ssl", "server-type", "server-port", "key", "timeout", "retry-interval",
+				"authentication-port", "accounting-port", "sasl-mechanism", "ldap-group-base-dn", "kerberos-realm"),
+		)}}},
+	{id: kLDAP, label: "ldap attribute-map", shape: shapeModes, removal: "never",
+		modes: []*modeSpec{{id: "", attrs: []attrSpec{
+			{key: "map-name"},
+			{key: "map-value", ref: kGP},
+		}}}},
+}
+
+var kindByID = map[string]*kindSpec{}
+
+func init() {
+	for _, k := range schema {
+		k.words = strings.Fields(k.label)
+		kindByID[k.id] = k
+	}
+}
+
+// topWords are the first words of the top-level commands the model knows.
+// A line that is not a sub-command of the current mode and starts with one
+// of them is executed at top level (leaving the sub-mode, as the device
+// does).
+var topWords = map[string]bool{
+	"access-list": true, "object-group": true, "access-group": true, "route": true, "ipv6": true,
+	"crypto": true, "ip": true, "group-policy": true, "tunnel-group": true, "tunnel-group-map": true,
+	"username": true, "aaa-server": true, "ldap": true, "sysopt": true, "clear": true, "interface": true,
+	"webvpn": true,
+}
+
+func (k *kindSpec) mode(id string) *modeSpec {
+	for _, m := range k.modes {
+		if m.id == id || m.id == "#" {
+			return m
+		}
+		if m.id == "host" && (id == "host" || strings.Contains(id, "host ")) {
+			return m
+		}
+	}
+	return nil
+}
+
+func hasPrefixWords(w, key []string) bool {
+	if len(key) > len(w) {
+		return false
+	}
+	for i, k := range key {
+		if w[i] != k {
+			return false
+		}
+	}
+	return true
+}
+
+// find returns the attribute description whose key is the longest word
+// prefix of the line.
+func (m *modeSpec) find(w []string) *attrSpec {
+	var best *attrSpec
+	bestN := 0
+	for i := range m.attrs {
+		k := strings.Fields(m.attrs[i].key)
+		if len(k) > bestN && hasPrefixWords(w, k) {
+			best, bestN = &m.attrs[i], len(k)
+		}
+	}
+	return best
+}
+
+// knownElsewhere: the word starts a sub-command of some other mode.
+func knownElsewhere(word string) bool {
+	if word == "certificate-group-map" {
+		return true
+	}
+	for _, k := range schema {
+		for _, m := range k.modes {
+			for _, a := range m.attrs {
+				if f, _, _ := strings.Cut(a.key, " "); f == word {
+					return true
+				}
+			}
 		}
 	}
 	return false
 }
 
+// ------------------------------------------------------------------ store
+
+type vmode struct {
+	Lines []string
+}
+
+// vobj is one schema-driven object.
+type vobj struct {
+	Top   []string          // creating / top-level lines after the name ("internal", "type ipsec-l2l", REST of a one-line object)
+	Modes map[string]*vmode // mode id (or sequence number) -> lines
+}
+
+func newObj() *vobj { return &vobj{Modes: map[string]*vmode{}} }
+
+func (o *vobj) mode(id string) *vmode {
+	m := o.Modes[id]
+	if m == nil {
+		m = &vmode{}
+		o.Modes[id] = m
+	}
+	return m
+}
+
+// seqs are the numeric mode ids in ascending order.
+func (o *vobj) seqs() []string {
+	l := make([]string, 0, len(o.Modes))
+	for k := range o.Modes {
+		l = append(l, k)
+	}
+	sort.Slice(l, func(i, j int) bool {
+		a, e1 := strconv.Atoi(l[i])
+		b, e2 := strconv.Atoi(l[j])
+		if e1 == nil && e2 == nil {
+			return a < b
+		}
+		return l[i] < l[j]
+	})
+	return l
+}
+
+// mapEntry is a tunnel-group-map / certificate-group-map entry;
+// Cert == "" is "default-group".
+type mapEntry struct {
+	Cert string
+	Seq  string
+	TG   string
+}
+
+func (e mapEntry) words() string {
+	if e.Cert == "" {
+		return "default-group " + e.TG
+	}
+	return e.Cert + " " + e.Seq + " " + e.TG
+}
+
+// GenStore holds the schema-driven (VPN) objects.
+type GenStore struct {
+	Objs        map[string]map[string]*vobj // kind id -> name -> object
+	CryptoIf    map[string]string           // interface -> crypto map bound there
+	TGMap       []mapEntry
+	Webvpn      bool
+	CGMap       []mapEntry
+	WebvpnOther []string // unmodelled sub-lines of the global webvpn block, verbatim
+	NoSysopt    bool     // "no sysopt connection permit-vpn"
+}
+
+func newGenStore() *GenStore {
+	return &GenStore{Objs: map[string]map[string]*vobj{}, CryptoIf: map[string]string{}}
+}
+
+func (g *GenStore) empty() bool {
+	for _, m := range g.Objs {
+		if len(m) > 0 {
+			return false
+		}
+	}
+	return len(g.CryptoIf) == 0 && len(g.TGMap) == 0 && !g.Webvpn && len(g.CGMap) == 0 && !g.NoSysopt
+}
+
+func (g *GenStore) clone() *GenStore {
+	n := newGenStore()
+	for kind, m := range g.Objs {
+		nm := map[string]*vobj{}
+		for name, o := range m {
+			c := newObj()
+			c.Top = append([]string(nil), o.Top...)
+			for id, md := range o.Modes {
+				c.Modes[id] = &vmode{Lines: append([]string(nil), md.Lines...)}
+			}
+			nm[name] = c
+		}
+		n.Objs[kind] = nm
+	}
+	for k, v := range g.CryptoIf {
+		n.CryptoIf[k] = v
+	}
+	n.TGMap = append([]mapEntry(nil), g.TGMap...)
+	n.CGMap = append([]mapEntry(nil), g.CGMap...)
+	n.WebvpnOther = append([]string(nil), g.WebvpnOther...)
+	n.Webvpn = g.Webvpn
+	n.NoSysopt = g.NoSysopt
+	return n
+}
+
+func (g *GenStore) get(kind, name string) *vobj { return g.Objs[kind][name] }
+
+func (g *GenStore) put(kind, name string) *vobj {
+	m := g.Objs[kind]
+	if m == nil {
+		m = map[string]*vobj{}
+		g.Objs[kind] = m
+	}
+	o := m[name]
+	if o == nil {
+		o = newObj()
+		m[name] = o
+	}
+	return o
+}
+
+func (g *GenStore) del(kind, name string) { delete(g.Objs[kind], name) }
+
+func (g *GenStore) names(kind string) []string { return sortedKeys(g.Objs[kind]) }
+
+func isDefaultObj(kind, name string) bool {
+	_, ok := kindByID[kind].defaults[name]
+	return ok
+}
+
+func isIPName(name string) bool {
+	_, err := netip.ParseAddr(name)
+	return err == nil
+}
+
+// ------------------------------------------------------ line normalisation
+
+func firstLine(l string) string {
+	f, _, _ := strings.Cut(l, "\n")
+	return f
+}
+
+// splitQuoted splits off a leading value that is either one word or a
+// double-quoted string (with \" escapes) from a word list.
+func splitQuoted(w []string) (val string, rest []string, ok bool) {
+	if len(w) == 0 {
+		return "", nil, false
+	}
+	if !strings.HasPrefix(w[0], `"`) {
+		return `"` + w[0] + `"`, w[1:], true
+	}
+	for i, x := range w {
+		body := x
+		if i == 0 {
+			body = x[1:]
+		}
+		if strings.HasSuffix(body, `"`) && !strings.HasSuffix(body, `\"`) {
+			return strings.Join(w[:i+1], " "), w[i+1:], true
+		}
+	}
+	return "", nil, false
+}
+
+// normLine gives the spelling under which the device stores a line of the
+// kind: whitespace, the default PFS group, quoting of LDAP map values.
+func normLine(kind string, line string) (string, error) {
+	first, nested, hasNested := strings.Cut(line, "\n")
+	w := strings.Fields(first)
+	switch kind {
+	case kCMap, kDyn:
+		if len(w) == 3 && w[0] == "set" && w[1] == "pfs" && w[2] == "group14" {
+			w = w[:2]
+		}
+	case kLDAP:
+		if len(w) >= 3 && w[0] == "map-value" {
+			val, rest, ok := splitQuoted(w[2:])
+			if !ok || len(rest) != 1 {
+				return "", unsupported("ldap map-value form %q", first)
+			}
+			w = []string{w[0], w[1], val, rest[0]}
+		}
+	}
+	res := strings.Join(w, " ")
+	if hasNested {
+		res += "\n" + nested
+	}
+	return res, nil
+}
+
+// lineKey is the identity under which a single-valued attribute is replaced.
+func lineKey(kind string, a *attrSpec, line string) string {
+	if kind == kLDAP {
+		w := strings.Fields(firstLine(line))
+		switch {
+		case w[0] == "map-value" && len(w) >= 3:
+			return strings.Join(w[:len(w)-1], " ")
+		case w[0] == "map-name" && len(w) >= 2:
+			return w[0] + " " + w[1]
+		}
+	}
+	return a.key
+}
+
+// lineRefs lists the objects a line names: (kind, name) pairs.
+func lineRefs(kind string, a *attrSpec, line string) []string {
+	if a == nil || a.ref == "" {
+		return nil
+	}
+	w := strings.Fields(firstLine(line))
+	if kind == kLDAP {
+		if len(w) < 4 {
+			return nil
+		}
+		return []string{w[len(w)-1]}
+	}
+	vals := w[len(strings.Fields(a.key)):]
+	if len(vals) == 0 {
+		return nil
+	}
+	if a.refAll {
+		return vals
+	}
+	return vals[:1]
+}
+
+// sameLine compares two stored lines the way the device does.
+func sameLine(kind, a, b string) bool {
+	a, b = firstLine(a), firstLine(b)
+	if kind == kCert && strings.HasPrefix(a, "subject-name") {
+		return strings.EqualFold(a, b)
+	}
+	return a == b
+}
+
+// ------------------------------------------------------------------ load
+
+func isNum(s string) bool {
+	_, err := strconv.ParseUint(s, 10, 31)
+	return err == nil
+}
+
+func matchKind(f []string) (*kindSpec, []string) {
+	var best *kindSpec
+	for _, k := range schema {
+		if hasPrefixWords(f, k.words) && (best == nil || len(k.words) > len(best.words)) {
+			best = k
+		}
+	}
+	if best == nil {
+		return nil, nil
+	}
+	return best, f[len(best.words):]
+}
+
+func addUnique(l []string, x string) []string {
+	for _, y := range l {
+		if y == x {
+			return l
+		}
+	}
+	return append(l, x)
+}
+
+// aaaHost splits "[(intf)] host H [...]" and gives the canonical mode id
+// "host H" plus the interface.
+func aaaHost(rest []string) (id string, ok bool) {
+	if len(rest) > 0 && strings.HasPrefix(rest[0], "(") {
+		if len(rest) >= 3 && rest[1] == "host" {
+			return rest[0] + " host " + rest[2], true
+		}
+		return "", false
+	}
+	if len(rest) >= 2 && rest[0] == "host" {
+		return "host " + rest[1], true
+	}
+	return "", false
+}
+
+func (g *GenStore) loadSubs(k *kindSpec, o *vobj, modeID string, subs []string) error {
+	m := o.mode(modeID)
+	for _, l := range subs {
+		n, err := normLine(k.id, l)
+		if err != nil {
+			return err
+		}
+		m.Lines = addUnique(m.Lines, n)
+	}
+	return nil
+}
+
+// load takes one top-level block of a configuration text. It reports
+// whether the block belongs to the schema part.
 func (g *GenStore) load(head string, subs []string) (bool, error) {
-	if isVPNLine(head) {
-		return true, unsupported("VPN object %q", head)
+	f := strings.Fields(head)
+	if head == "no sysopt connection permit-vpn" {
+		g.NoSysopt = true
+		return true, nil
+	}
+	switch f[0] {
+	case "webvpn":
+		if len(f) != 1 {
+			return false, nil
+		}
+		g.Webvpn = true
+		for _, l := range subs {
+			w := strings.Fields(firstLine(l))
+			if w[0] == "certificate-group-map" {
+				if len(w) != 4 || !isNum(w[2]) {
+					return true, unsupported("certificate-group-map form %q", l)
+				}
+				g.CGMap = append(g.CGMap, mapEntry{w[1], w[2], w[3]})
+			} else {
+				g.WebvpnOther = append(g.WebvpnOther, l)
+			}
+		}
+		return true, nil
+	case "tunnel-group-map":
+		switch {
+		case len(f) == 3 && f[1] == "default-group":
+			g.TGMap = append(g.TGMap, mapEntry{"", "", f[2]})
+			return true, nil
+		case len(f) == 4 && isNum(f[2]):
+			g.TGMap = append(g.TGMap, mapEntry{f[1], f[2], f[3]})
+			return true, nil
+		}
+		return false, nil // "tunnel-group-map enable rules" etc.: not modelled
+	}
+	k, rest := matchKind(f)
+	if k == nil {
+		return false, nil
+	}
+	if len(rest) == 0 {
+		return false, nil // incomplete command: the device would not print it
+	}
+	name := rest[0]
+	rest = rest[1:]
+	switch k.id {
+	case kCMap, kDyn:
+		if k.id == kCMap && len(rest) == 2 && rest[0] == "interface" {
+			g.CryptoIf[rest[1]] = name
+			return true, nil
+		}
+		if len(rest) < 2 || !isNum(rest[0]) {
+			return true, unsupported("%s form %q", k.label, head)
+		}
+		line, _ := normLine(k.id, strings.Join(rest[1:], " "))
+		if k.modes[0].find(strings.Fields(line)) == nil {
+			return true, unsupported("%s attribute %q", k.label, line)
+		}
+		m := g.put(k.id, name).mode(rest[0])
+		m.Lines = addUnique(m.Lines, line)
+		return true, nil
+	case kTSet, kPool:
+		if len(rest) == 0 {
+			return false, nil
+		}
+		g.put(k.id, name).Top = []string{strings.Join(rest, " ")}
+		return true, nil
+	case kProp, kLDAP:
+		if len(rest) != 0 {
+			return false, nil
+		}
+		return true, g.loadSubs(k, g.put(k.id, name), "", subs)
+	case kCert:
+		if len(rest) != 1 || !isNum(rest[0]) {
+			return false, nil // the device prints name and number; anything else is noise
+		}
+		return true, g.loadSubs(k, g.put(k.id, name), rest[0], subs)
+	case kGP, kUser:
+		if len(rest) == 1 && rest[0] == "attributes" {
+			return true, g.loadSubs(k, g.put(k.id, name), "attributes", subs)
+		}
+		if len(rest) >= 1 {
+			if k.id == kGP && rest[0] != "internal" {
+				return true, unsupported("group-policy form %q", head)
+			}
+			o := g.put(k.id, name)
+			o.Top = addUnique(o.Top, strings.Join(rest, " "))
+			return true, nil
+		}
+	case kTG:
+		if len(rest) == 2 && rest[0] == "type" {
+			g.put(k.id, name).Top = []string{"type " + rest[1]}
+			return true, nil
+		}
+		if len(rest) == 1 && k.mode(rest[0]) != nil && strings.HasSuffix(rest[0], "-attributes") {
+			return true, g.loadSubs(k, g.put(k.id, name), rest[0], subs)
+		}
+		return true, unsupported("tunnel-group form %q", head)
+	case kAAA:
+		if len(rest) == 2 && rest[0] == "protocol" {
+			o := g.put(k.id, name)
+			o.Top = []string{"protocol " + rest[1]}
+			return true, nil
+		}
+		if id, ok := aaaHost(rest); ok {
+			return true, g.loadSubs(k, g.put(k.id, name), id, subs)
+		}
+		return true, unsupported("aaa-server form %q", head)
 	}
 	return false, nil
 }
 
-func (g *GenStore) exitMode(m modeRef) modeRef { return modeRef{} }
+// ----------------------------------------------------------------- print
 
-func (g *GenStore) execSub(s *State, f []string, line string) (bool, error) {
-	return false, nil
+func (g *GenStore) printLines(b *strings.Builder, kind string, lines []string, dev bool) {
+	for _, l := range lines {
+		first, nested, has := strings.Cut(l, "\n")
+		if dev && kind == kCert && strings.HasPrefix(first, "subject-name") {
+			first = strings.ToLower(first)
+		}
+		b.WriteString(" " + first + "\n")
+		if has {
+			b.WriteString(nested + "\n")
+		}
+	}
 }
 
-func (g *GenStore) execClear(s *State, f []string) (bool, error) {
-	return true, unsupported("clear configure %s", strings.Join(f, " "))
+// print renders the VPN part. With a device spelling the variants a device
+// shows are used: "set pfs group14" for the default group, lower-cased
+// subject-name, "aaa-server NAME (inside) host ADDRESS".
+func (g *GenStore) print(b *strings.Builder, sp Spelling) {
+	dev := sp != plain
+	if g.NoSysopt {
+		b.WriteString("no sysopt connection permit-vpn\n")
+	}
+	for _, kind := range []string{kTSet, kProp, kDyn, kCMap, kPool, kGP, kAAA, kLDAP, kTG, kCert, kUser} {
+		k := kindByID[kind]
+		for _, name := range g.names(kind) {
+			o := g.Objs[kind][name]
+			head := k.label + " " + name
+			switch kind {
+			case kTSet, kPool:
+				fmt.Fprintf(b, "%s %s\n", head, strings.Join(o.Top, " "))
+			case kDyn, kCMap:
+				for _, seq := range o.seqs() {
+					for _, l := range o.Modes[seq].Lines {
+						if dev && sp.Metric && l == "set pfs" {
+							l = "set pfs group14"
+						}
+						fmt.Fprintf(b, "%s %s %s\n", head, seq, l)
+					}
+				}
+			case kProp, kLDAP:
+				b.WriteString(head + "\n")
+				g.printLines(b, kind, o.mode("").Lines, dev)
+			case kCert:
+				for _, seq := range o.seqs() {
+					fmt.Fprintf(b, "%s %s\n", head, seq)
+					g.printLines(b, kind, o.Modes[seq].Lines, dev)
+				}
+			case kAAA:
+				for _, t := range o.Top {
+					fmt.Fprintf(b, "%s %s\n", head, t)
+				}
+				for _, id := range o.seqs() {
+					h := id
+					if dev && !strings.HasPrefix(id, "(") {
+						addr := strings.TrimPrefix(id, "host ")
+						if !isIPName(addr) {
+							addr = "10.2.8.16"
+						}
+						h = "(inside) host " + addr
+					}
+					fmt.Fprintf(b, "%s %s\n", head, h)
+					g.printLines(b, kind, o.Modes[id].Lines, dev)
+				}
+			default: // gp, tg, user
+				for _, t := range o.Top {
+					fmt.Fprintf(b, "%s %s\n", head, t)
+				}
+				for _, m := range k.modes {
+					if md, ok := o.Modes[m.id]; ok {
+						fmt.Fprintf(b, "%s %s\n", head, m.id)
+						g.printLines(b, kind, md.Lines, dev)
+					}
+				}
+			}
+		}
+		if kind == kCMap {
+			for _, intf := range sortedKeys(g.CryptoIf) {
+				fmt.Fprintf(b, "crypto map %s interface %s\n", g.CryptoIf[intf], intf)
+			}
+		}
+	}
+	for _, e := range g.TGMap {
+		b.WriteString("tunnel-group-map " + e.words() + "\n")
+	}
+	if g.Webvpn {
+		b.WriteString("webvpn\n")
+		for _, l := range g.WebvpnOther {
+			first, nested, has := strings.Cut(l, "\n")
+			b.WriteString(" " + first + "\n")
+			if has {
+				b.WriteString(nested + "\n")
+			}
+		}
+		for _, e := range g.CGMap {
+			b.WriteString(" certificate-group-map " + e.words() + "\n")
+		}
+	}
 }
-
-func (g *GenStore) execTop(s *State, neg bool, f []string, line string) (bool, error) {
-	return false, nil
-}
-
-func (g *GenStore) userOf(prefix, name string) string { return "" }
-
-func (g *GenStore) boundIntfs() []string { return nil }
-
-func (g *GenStore) canon(s *State, sc Scope) []string { return nil }
-
-func (g *GenStore) managedACLs(s *State, sc Scope) []string { return nil }
